@@ -604,7 +604,8 @@ TRUST_PATTERNS = [r'#\[verifier::external_body\]', r'\bassume_specification\b', 
                   r'#\[verifier::(external_type_specification|external_fn_specification)', r'\baxiom\b']
 
 
-def generate_unit(unit_name, specs, probe=False):
+def generate_unit(unit_name, specs, probe=False, force_lost=None):
+    force_lost = force_lost or {}
     path = os.path.join(VERIF, 'contracts', 'units', unit_name + '.vrs')
     u = Unit(unit_name)
     out = []
@@ -634,6 +635,8 @@ def generate_unit(unit_name, specs, probe=False):
                     raise GenError('%s is marked assumed but unit %s verifies it' % (name, unit_name))
                 start = cur_line()
                 try:
+                    if mode == 'verify' and name in force_lost:
+                        raise GenError(force_lost[name])
                     txt, em = emit_fn(sp, mode, probe=probe)
                 except GenError as e:
                     if mode != 'verify':
